@@ -17,7 +17,7 @@ static const char *MESSAGES[25] = {
   "Given argument is NULL", "Given option not found", "Value cannot be converted",
 };
 static int Nmax = 2;
-static int kind, pos, second, embed;
+static int kind, pos, second, embed, nofinalnl;
 static char d0[300], d1[300];
 static char p_single[400], p_main0[400], p_main1[400], p_drop[3][400];
 #define SENT_KF ((econf_file *)(uintptr_t)0x10)
@@ -31,7 +31,8 @@ static void gen(void)
   kind = mc_choose(nk);
   pos = mc_choose(n + 1);
   second = mc_choose(nk);          /* == kind: no second malformed line */
-  embed = mc_choose(5);            /* 0 single, 1 main file, 2..4 k-th drop-in */
+  embed = mc_choose(8);            /* 0 single, 1 main file, 2..4 k-th drop-in, 5 main file / 6 2nd drop-in through econf_readConfig with JOIN_SAME_ENTRIES=1, 7 main file with PYTHON_STYLE=1 (header kinds only) */
+  nofinalnl = (second == kind && pos == n) ? mc_choose(2) : 0;   /* malformed line is the last line: with and without newline */
 }
 
 static void put(const char *path, const char *content) { mc_write_file(path, content, strlen(content)); }
@@ -46,7 +47,10 @@ static void exec(void)
     if (i < cg_n) { sb_puts(&f, cg_l[i].text); sb_putc(&f, '\n'); }
   }
   if (second != kind) { sb_puts(&f, "\n"); sb_puts(&f, BADLINE[second]); sb_putc(&f, '\n'); }
-  static const char *EN[5] = { "single file", "main file of a layered read", "1st drop-in", "2nd drop-in", "3rd drop-in" };
+  if (nofinalnl && f.len && f.s[f.len - 1] == '\n') { f.len--; f.s[f.len] = 0; }
+  static const char *EN[8] = { "single file", "main file of a layered read", "1st drop-in", "2nd drop-in", "3rd drop-in",
+                               "main file, econf_readConfig with JOIN_SAME_ENTRIES=1", "2nd drop-in, econf_readConfig with JOIN_SAME_ENTRIES=1", "main file, econf_readConfig with PYTHON_STYLE=1" };
+  if (embed == 7 && kind == 3) { mc_st->skipped++; sb_free(&f); sb_free(&sig); return; }   /* indentation rules differ under PYTHON_STYLE: header kinds only */
   sb_puts(&sig, "file=\""); sb_put_esc(&sig, f.s, f.len); sb_printf(&sig, "\" malformed-line=%d as=%s delim=\"", pos + 1, EN[embed]); sb_put_escs(&sig, cg.D);
   sb_puts(&sig, "\" comment=\""); sb_put_escs(&sig, cg.C); sb_puts(&sig, "\"");
   snprintf(mc_case_sig, sizeof mc_case_sig, "%s", sig.s);
@@ -58,9 +62,15 @@ static void exec(void)
   if (embed == 0) { put(p_single, f.s); bad_path = p_single; rc = econf_readFile(&kf, p_single, cg.D, cg.C); }
   else {
     unlink(p_main0); unlink(p_main1);
-    if (embed == 1) { put(p_main1, f.s); bad_path = p_main1; for (int i = 0; i < 3; i++) put(p_drop[i], good); }
-    else { put(p_main0, good); for (int i = 0; i < 3; i++) put(p_drop[i], i == embed - 2 ? f.s : good); bad_path = p_drop[embed - 2]; }
-    rc = econf_readDirs(&kf, d0, d1, "cfg", "conf", cg.D, cg.C);
+    int as_main = embed == 1 || embed == 5 || embed == 7, dropidx = embed == 6 ? 1 : embed - 2;
+    if (as_main) { put(p_main1, f.s); bad_path = p_main1; for (int i = 0; i < 3; i++) put(p_drop[i], good); }
+    else { put(p_main0, good); for (int i = 0; i < 3; i++) put(p_drop[i], i == dropidx ? f.s : good); bad_path = p_drop[dropidx]; }
+    if (embed >= 5) {
+      char opt[800]; snprintf(opt, sizeof opt, "%s;PARSING_DIRS=%s:%s", embed == 7 ? "PYTHON_STYLE=1" : "JOIN_SAME_ENTRIES=1", d0, d1);
+      econf_file *own = NULL;
+      rc = econf_newKeyFile_with_options(&own, opt);
+      if (rc == ECONF_SUCCESS) { kf = own; rc = econf_readConfig(&kf, NULL, NULL, "cfg", "conf", cg.D, cg.C); }
+    } else rc = econf_readDirs(&kf, d0, d1, "cfg", "conf", cg.D, cg.C);
   }
   mc_st->libcalls++;
   char *lf = NULL; uint64_t ln = 0;
